@@ -9,6 +9,23 @@ From PyC Require Import Base Cbor Redeemers.
 Import ListNotations.
 Open Scope N_scope.
 
+(* ---------- compact hex literals for the cases files: (hxl "00ff") ----------
+   A string literal of type hexlit elaborates to one constructor per character (Base.hx goes through
+   Ascii: nine), which makes the large transaction literals three times cheaper to type-check. *)
+Inductive hexlit := HL (l : list byte).
+Definition hl_parse (l : list byte) : hexlit := HL l.
+Definition hl_print (h : hexlit) : list byte := match h with HL l => l end.
+Declare Scope hl_scope.
+Delimit Scope hl_scope with hl.
+Bind Scope hl_scope with hexlit.
+String Notation hexlit hl_parse hl_print : hl_scope.
+Definition hexv (b : byte) : N :=
+  let n := b2n b in
+  if (48 <=? n) && (n <=? 57) then n - 48 else if (97 <=? n) && (n <=? 102) then n - 87 else 0.
+Fixpoint hxl_ (l : list byte) : bytes :=
+  match l with a :: b :: r => n2b (16 * hexv a + hexv b) :: hxl_ r | _ => [] end.
+Definition hxl (h : hexlit) : bytes := hxl_ (hl_print h).
+
 (* ---------- reading a transaction ---------- *)
 Definition mfind (k : N) (kvs : list (cbor * cbor)) : option cbor :=
   match find (fun kv => match fst kv with CU n => n =? k | _ => false end) kvs with
@@ -327,3 +344,5 @@ Definition oracle (c : case) (r : implres) : N * N * N * N :=
       end
   | _ => (0, 0, 0, 0)
   end.
+
+Definition judge (c : case) (r : implres) : bool * (N * N * N * N) := (corr c r, oracle c r).
